@@ -113,6 +113,16 @@ class FakeSocket:
             raise ConnectionResetError(errno.ECONNRESET, 'reset')
         if not scripted:
             k = n
+        elif self.mode == 'fair':
+            # like 'class', but every write accepts at least one byte (the peer keeps reading)
+            if k == 0:
+                k = n
+            elif k == 1:
+                k = min(1, n)
+            elif k == 2:
+                k = max(n - 1, min(1, n))
+            else:
+                k = max(n // 2, min(1, n))
         elif self.mode == 'class':
             # k names a class of outcome: 0 everything, 1 one byte, 2 all but one byte, >=3 half
             if k == 0:
@@ -172,6 +182,9 @@ class FakeSelector:
         self.ready = []      # list of (fd, mask) the "kernel" reports on next select()
         self.closed = False
         self.log = []
+        self.auto = None     # {fd: FakeSocket}: derive readiness from the sockets
+        self.report = {}     # fd -> mask the 'kernel' is willing to report this round (default everything)
+        self.nselect = 0
 
     def _fd(self, fileobj):
         fd = fileobj if isinstance(fileobj, int) else fileobj.fileno()
@@ -211,6 +224,25 @@ class FakeSelector:
         return self.map.pop(fd)
 
     def select(self, timeout=None):
+        if self.auto is not None:
+            # readiness derived from the fake sockets: readable when a segment/EOF/error is waiting,
+            # writable always, each filtered by the registered interest and by the optional report mask
+            out = []
+            for fd in sorted(self.map):
+                key = self.map[fd]
+                s = self.auto.get(fd)
+                if s is None:
+                    continue
+                m = 0
+                if (key.events & selectors.EVENT_READ) and s.inq:
+                    m |= selectors.EVENT_READ
+                if key.events & selectors.EVENT_WRITE:
+                    m |= selectors.EVENT_WRITE
+                m &= self.report.get(fd, 3)
+                if m:
+                    out.append((key, m))
+            self.nselect += 1
+            return out
         out = []
         for fd, mask in self.ready:
             if fd in self.map and (self.map[fd].events & mask):
@@ -340,3 +372,50 @@ def make_handler(flags, env, name='client', addr=('10.0.0.1', 40000), uid='w1'):
 def pending(conn):
     """Bytes queued on a TcpConnection and not yet handed to the socket."""
     return cat(conn.buffer)
+
+
+class Executor:
+    """A real ThreadlessFdExecutor on FakeLoop/FakeSelector (what the acceptor's event loop does, minus OS)."""
+
+    def __init__(self, flags, env):
+        from proxy.core.work.fd.fd import ThreadlessFdExecutor
+
+        class _Exec(ThreadlessFdExecutor):
+            def __init__(s, flags):
+                super().__init__(iid='1', work_queue=None, flags=flags)
+                s._l = FakeLoop()
+                s.selector = FakeSelector()
+
+            @property
+            def loop(s):
+                return s._l
+
+            def receive_from_work_queue(s):
+                return False
+
+            def work_queue_fileno(s):
+                return None
+        self.ex = _Exec(flags)
+        self.env = env
+        self.ex.selector.auto = {}
+
+    def accept(self, name, addr=('10.0.0.9', 5000)):
+        s = self.env.sock(name)
+        self.ex.work(s.fd, addr, s)
+        self.sync()
+        return s
+
+    def sync(self):
+        for s in self.env.sockets:
+            self.ex.selector.auto[s.fd] = s
+
+    def step(self):
+        """One iteration of the executor loop. Returns the exception that escaped, if any."""
+        from vlib.hk import run
+        self.sync()
+        try:
+            run(self.ex._run_once())
+        except Exception as e:      # noqa
+            return e
+        self.sync()
+        return None
